@@ -265,6 +265,8 @@ struct GuiState {
     cost_node_ns: u64,
     explosive_game: bool,
     earlier_roots: Vec<String>,
+    /// (root, moves) of the games played so far in this process
+    earlier_games: Vec<(String, Vec<String>)>,
     quit_sent: bool,
     lookalike: Option<Pos>,
 }
@@ -299,6 +301,7 @@ pub fn generate_and_run(seed: u64) -> (Scenario, LoopReport) {
         cost_node_ns,
         explosive_game: false,
         earlier_roots: vec![],
+        earlier_games: vec![],
         quit_sent: false,
         lookalike: None,
     }));
@@ -309,6 +312,10 @@ pub fn generate_and_run(seed: u64) -> (Scenario, LoopReport) {
         loop {
             match g.phase {
                 0 => {
+                    if !g.root.is_empty() && !g.moves.is_empty() {
+                        let done = (g.root.clone(), g.moves.clone());
+                        g.earlier_games.push(done);
+                    }
                     if g.games_left == 0 {
                         if g.quit_sent {
                             return None;
@@ -356,6 +363,21 @@ pub fn generate_and_run(seed: u64) -> (Scenario, LoopReport) {
                     g.root = root;
                     g.pos = pos;
                     g.moves.clear();
+                    if !g.explosive_game && !g.earlier_games.is_empty() && g.rng.chance(1, 5) {
+                        // an earlier game taken up again (same start, same moves up to some
+                        // point, usually all of them): whatever the engine remembers about the
+                        // game it was given before must not leak into this one
+                        let (r, ms) = g.rng.pick(&g.earlier_games).clone();
+                        let k = if g.rng.chance(2, 3) { ms.len() } else { g.rng.usize_below(ms.len() + 1) };
+                        let line = if k == 0 { format!("position {}", r) } else { format!("position {} moves {}", r, ms[..k].join(" ")) };
+                        if let Some((p, _)) = interpret_position(&line) {
+                            if !p.legal_moves().is_empty() {
+                                g.root = r;
+                                g.pos = p;
+                                g.moves = ms[..k].to_vec();
+                            }
+                        }
+                    }
                     g.plies_left = if g.explosive_game { g.rng.range(1, 6) } else { g.rng.range(1, 40) };
                     g.phase = 1;
                     // about a third of the games omit ucinewgame
@@ -559,7 +581,7 @@ pub fn run(ctx: &Ctx) -> i32 {
     });
     let ev = Evidence {
         level: "exploration",
-        rule: "One sim = one engine process lifetime: a simulated GUI plays 1-4 games (startpos, playout FENs, constructed mate/stalemate/only-move/promotion positions, promotion races; a third of the games without ucinewgame and revisiting earlier roots so that TT/killers/history are stale), sending position+go per move and playing the engine's answer plus a seeded reply on the rules model. go parameters: depth 1..4, movetime 0/1/small/large, wtime/btime[/winc/binc] in four regimes (ample, near the 5 s reserve, below it, zero) in random token order. The clock's per-sim cost model (1us..5ms per node, optional per-read cost, stall jumps, forced expiry at reads 1..6 of seeded searches) decides where each budget expires. Oracle per go: exactly one bestmove, last line, legal per the rules model and never 0000 when a legal move exists (the token printed for a position without legal moves is not prescribed by the property and not judged), no crash. Evaluations = go commands judged; a case is distinct by (piece count, legal-move count, budget, expired?, go kind).".into(),
+        rule: "One sim = one engine process lifetime: a simulated GUI plays 1-4 games (startpos, playout FENs, constructed mate/stalemate/only-move/promotion positions, promotion races; a third of the games without ucinewgame and revisiting earlier roots so that TT/killers/history are stale; one game in five takes up an earlier game of the same process again with the same start and moves), sending position+go per move and playing the engine's answer plus a seeded reply on the rules model. go parameters: depth 1..4, movetime 0/1/small/large, wtime/btime[/winc/binc] in four regimes (ample, near the 5 s reserve, below it, zero) in random token order. The clock's per-sim cost model (1us..5ms per node, optional per-read cost, stall jumps, forced expiry at reads 1..6 of seeded searches) decides where each budget expires. Oracle per go: exactly one bestmove, last line, legal per the rules model and never 0000 when a legal move exists (the token printed for a position without legal moves is not prescribed by the property and not judged), no crash. Evaluations = go commands judged; a case is distinct by (piece count, legal-move count, budget, expired?, go kind).".into(),
         extra: serde_json::Map::new(),
         assumptions: vec![
             "a depth-limited go that hits the 3M-node step cap is inconclusive (counted), never a violation: C03 sets no time bound for go depth".into(),
